@@ -141,8 +141,8 @@ Proof.
   { intros k Hk. destruct (il_lk _ _ I k Hk) as (H1 & H2 & _). split; assumption. }
   destruct (bid_spec lc l aid who paid recv closed exh topup l' Hw HL H) as (a & lk & Ma & Mk & Hc).
   destruct (gfind_some lk_id _ _ _ Mk) as [Hkin Hkid]. destruct (gfind_some au_id _ _ _ Ma) as [Hain Haid].
-  destruct (il_lk _ _ I lk Hkin) as (K1 & K2 & K3 & K4).
-  destruct (il_au _ _ I a Hain) as [A1 A2]. destruct (A2 lk Mk) as [A3 A4].
+  destruct (il_lk _ _ I lk Hkin) as (K1 & K2 & K3 & K4 & K5).
+  destruct (il_au _ _ I a Hain) as (A1 & Ac & Ad & A2). destruct (A2 lk Mk) as (A5 & A3 & A4).
   destruct closed.
   - destruct Hc as (s' & r' & -> & B & Hd & Hs). unfold closes. intros d. destruct (J d) as [J1 J2].
     cbn [vs over lks edebt]. unfold add1. split; [|destruct (d =? au_cout a); lia].
@@ -159,29 +159,50 @@ Proof.
     unfold recorded_d, debt_sum, lock_prin_d in *. cbn [vs lks edebt]. rewrite (bs_vaults _ _ B), (bs_svaults _ _ B), Hs. exact J1.
 Qed.
 
-(* ---------- the block tick without an ESM return touches neither the vault books nor the supply ---------- *)
-Lemma tick_one_frame lc l aid l' : esm_return_due l = false -> tick_one lc l aid = Ok l' ->
-  vs l' = vs l /\ lks l' = lks l /\ edebt l' = edebt l /\ over l' = over l.
+(* ---------- the block tick: restarts touch nothing; an ESM return burns what was collected beyond the penalty
+   and re-records the auction's remaining target debt as the returned vault's principal ---------- *)
+Lemma trigger_esm_inv02 c ext l a lk l' : InvL c l -> Inv02L c ext l -> In a (aus l) -> find_lk (lks l) (au_lock a) = Some lk ->
+  trigger_esm l a lk = Ok l' -> Inv02L c ext l'.
 Proof.
-  intros D H. unfold tick_one in H. cbv zeta in H.
-  destruct (find_au (aus l) aid) as [a|] eqn:Ma; [|injection H as <-; repeat split].
-  destruct (gfind_some au_id _ _ _ Ma) as [Hain Haid].
-  pose proof (proj1 (existsb_false _ _) D a Hain) as Da. cbv beta in Da.
-  destruct (e_status (esm (vs l) (au_app a))) eqn:Es.
-  - destruct (now (vs l) >? au_end a) eqn:Nw; [discriminate Da|]. injection H as <-. repeat split.
-  - destruct (now (vs l) >? au_end a) eqn:Nw; [|injection H as <-; repeat split].
-    do 3 exec1 H. injection H as <-. repeat split.
+  intros I J Hain Mk H.
+  destruct (il_au _ _ I a Hain) as (A1 & Ac & Ad & A2). destruct (A2 lk Mk) as (A5 & A3 & A4).
+  destruct (trigger_esm_spec c l a lk l' I Hain Mk H) as
+    (bc & tb & Htb & Bpre & Bwf & Bapp & Bpair & Bdin & Bdout & Bown & Sv & Sx & Sl & Si & Ssi & Su & Sun & Sb & Ss & Spf & Spc & Spm & Spi &
+     Llk & Lau & Llkid & Lauid & Led & Ldr & Lem & Lec & Les & Lov).
+  intros d. destruct (J d) as [J1 J2]. rewrite Lov. unfold add1. split; [|destruct (d =? au_cout a); lia].
+  assert (Hds : debt_sum c (vs l') d = debt_sum c (vs l) d + (if denom_out c (bc_pair bc) =? d then bc_dout bc else 0)).
+  { unfold debt_sum. rewrite Sv, Sx.
+    assert (Hxx : svaults (vs l) = bc_svaults bc (svaults (vs l))) by (destruct bc; try (exfalso; exact Bown); reflexivity).
+    rewrite Hxx at 1.
+    pose proof (bc_wsum c (view l) bc (fun v => if denom_out c (v_pair v) =? d then v_out v else 0)
+                  (fun v => if denom_out c (sv_pair v) =? d then sv_out v else 0) (il_view _ _ I)) as Hw.
+    unfold view in Hw. rewrite shift_pre, shift_vaults, shift_svaults in Hw. rewrite (Hw Bpre).
+    rewrite (delta_out (fun _ p => denom_out c p =? d) c (vs l) bc Bpre). reflexivity. }
+  unfold recorded_d, lock_prin_d in *. rewrite Hds, Ss, Llk, Led, Bpair, Bdout, <- A3. unfold at1. rewrite (Z.eqb_sym (au_cout a) d).
+  destruct (d =? au_cout a); lia.
 Qed.
 
-Lemma auc_tick_inv02 c ext lc l : InvL c l -> esm_return_due l = false -> Inv02L c ext l -> Inv02L c ext (auc_tick lc l).
+Lemma tick_one_inv02 c ext lc l aid l' : InvL c l -> Inv02L c ext l -> tick_one lc l aid = Ok l' -> Inv02L c ext l'.
+Proof.
+  intros I J H. unfold tick_one in H. cbv zeta in H.
+  destruct (find_au (aus l) aid) as [a|] eqn:Ma; [|injection H as <-; exact J].
+  destruct (gfind_some au_id _ _ _ Ma) as [Hain Haid].
+  destruct (e_status (esm (vs l) (au_app a))) eqn:Es.
+  - destruct (now (vs l) >? au_end a) eqn:Nw; [|injection H as <-; exact J].
+    destruct (find_lk (lks l) (au_lock a)) as [lk|] eqn:Mk; [|injection H as <-; exact J].
+    exact (trigger_esm_inv02 c ext l a lk l' I J Hain Mk H).
+  - destruct (now (vs l) >? au_end a) eqn:Nw; [|injection H as <-; exact J].
+    do 3 exec1 H. injection H as <-. exact J.
+Qed.
+
+Lemma auc_tick_inv02 c ext lc l : InvL c l -> Inv02L c ext l -> Inv02L c ext (auc_tick lc l).
 Proof.
   unfold auc_tick. generalize (map au_id (aus l)) as ids. intros ids. revert l.
-  induction ids as [|aid ids IH]; intros l I D J; cbn [fold_left]; [exact J|].
+  induction ids as [|aid ids IH]; intros l I J; cbn [fold_left]; [exact J|].
   destruct (tick_one lc l aid) as [l1| |] eqn:T; cbn [keep].
-  - destruct (tick_one_invL c lc l aid l1 I D T) as [I1 D1]. destruct (tick_one_frame lc l aid l1 D T) as (F1 & F2 & F3 & F4).
-    apply (IH l1 I1 D1). intros d. destruct (J d) as [J1 J2]. unfold recorded_d, lock_prin_d in *. rewrite F1, F2, F3, F4. split; assumption.
-  - exact (IH l I D J).
-  - exact (IH l I D J).
+  - exact (IH l1 (tick_one_invL c lc l aid l1 I T) (tick_one_inv02 c ext lc l aid l1 I J T)).
+  - exact (IH l I J).
+  - exact (IH l I J).
 Qed.
 
 (* ---------- esm redemption: the principal moves from the vault record to the esm register ---------- *)
@@ -234,8 +255,8 @@ Proof.
   - destruct (run c (vs l) o) as [s'| |] eqn:R; try discriminate H. injection H as <-. exact (vop_inv02 c ext l o s' CK Hok I J R).
   - exact (liquidate_inv02 c ext lc l id ienv true keeper l' I J H).
   - injection H as <-. exact (sweep_inv02 c ext lc items CK l I J).
-  - exact (bid_inv02 c ext lc l aid who paid recv closed exh topup l' Hok I J H).
-  - injection H as <-. apply auc_tick_inv02; [exact I|exact Hok|exact J].
+  - exact (bid_inv02 c ext lc l aid who paid recv closed exh topup l' (proj1 Hok) I J H).
+  - injection H as <-. apply auc_tick_inv02; [exact I|exact J].
   - exact (esm_redeem_inv02 c ext lc l app l' I J H).
 Qed.
 
